@@ -769,6 +769,35 @@ func (v Value) evaluateBreak(labels []string) resultKind {
 // fallback to just returning the Go value we have handy.
 func (v Value) toReflectValue(typ reflect.Type) (reflect.Value, error) {
 	kind := typ.Kind()
+
+	// A number that is held as a Go integer (an element or field read from a
+	// bridged Go value, e.g. s[0] = s[1] on []int64) converts exactly; the
+	// general path below goes through float64 and rounds above 2^53.
+	if v.kind == valueNumber {
+		switch kind {
+		case reflect.Int, reflect.Int8, reflect.Int16, reflect.Int32, reflect.Int64,
+			reflect.Uint, reflect.Uint8, reflect.Uint16, reflect.Uint32, reflect.Uint64:
+			if held := reflect.ValueOf(v.value); held.CanInt() || held.CanUint() {
+				out := reflect.New(typ).Elem()
+				switch {
+				case held.CanInt() && out.CanInt() && !out.OverflowInt(held.Int()):
+					out.SetInt(held.Int())
+					return out, nil
+				case held.CanInt() && out.CanUint() && held.Int() >= 0 && !out.OverflowUint(uint64(held.Int())):
+					out.SetUint(uint64(held.Int()))
+					return out, nil
+				case held.CanUint() && out.CanUint() && !out.OverflowUint(held.Uint()):
+					out.SetUint(held.Uint())
+					return out, nil
+				case held.CanUint() && out.CanInt() && held.Uint() <= math.MaxInt64 && !out.OverflowInt(int64(held.Uint())):
+					out.SetInt(int64(held.Uint()))
+					return out, nil
+				}
+				return reflect.Value{}, fmt.Errorf("RangeError: %v to %v", v, typ)
+			}
+		}
+	}
+
 	switch kind {
 	case reflect.Float32, reflect.Float64, reflect.Interface:
 	default:
